@@ -2673,12 +2673,38 @@ impl Monitors {
         }
         if capable {
             for w in &snap.workers {
-                if !w.blocked.is_empty() && w.assigned.is_empty() {
+                // only shapes that the worker could otherwise run matter: a shape that the
+                // worker rejected because its remaining life time is too short stays blocked
+                // for good, and that changes nothing
+                let relevant: Vec<&(u32, u8)> = w
+                    .blocked
+                    .iter()
+                    .filter(|(rq_id, rv)| {
+                        Self::rq_of(snap, *rq_id, *rv).is_some_and(|rq| {
+                            let covers = rq.entries().iter().all(|e| {
+                                let total = w
+                                    .total
+                                    .get(e.resource_id.as_num() as usize)
+                                    .copied()
+                                    .unwrap_or(0);
+                                match e.request.amount_or_none_if_all() {
+                                    Some(a) => a.total_fractions() <= total,
+                                    None => total > 0,
+                                }
+                            });
+                            let time_ok = w.remaining.is_none_or(|r| {
+                                r > rq.min_time() + std::time::Duration::from_secs(2)
+                            });
+                            covers && time_ok
+                        })
+                    })
+                    .collect();
+                if !relevant.is_empty() && w.assigned.is_empty() {
                     obs.alarm(
                         "C02",
                         step,
                         "request shape still blocked on an idle worker at rest",
-                        format!("w{} blocked {:?}", w.id, w.blocked),
+                        format!("w{} blocked {:?}", w.id, relevant),
                     );
                 }
             }
